@@ -158,6 +158,75 @@ def gen_forest(rng, deep=False):
     return fo
 
 
+SHAPES = ["deep-first", "chain", "cousins", "multi-root", "under-failing", "dups", "family"]
+
+
+def shaped_targets(rng, fo, fail):
+    """target lists along the case splits of the several-target proofs (Proofs/RedfishLive.v, RedfishStart.v):
+    descendants BEFORE their ancestors, whole root-to-leaf chains, unrelated targets that share ancestors at different
+    depths, one waiter per root (a root that is already active followed by a waiter below another, untargeted root),
+    targets below a failing host, heavy duplicates, a plug with all its descendants.  Returns (targets, shape)."""
+    plugs = fo.plugs
+    depth = {p: len(fo.anc(p)) for p in plugs}
+    desc = {p: [q for q in plugs if fo.isdesc(q, p)] for p in plugs}
+    roots = [p for p in plugs if depth[p] == 0]
+    shape = rng.choice(SHAPES)
+    tg = []
+    if shape == "deep-first":
+        withanc = [p for p in plugs if depth[p] > 0]
+        if withanc:
+            p = rng.choice(withanc)
+            tg = [p] + rng.sample(fo.anc(p), rng.randrange(1, depth[p] + 1)) + rng.sample(plugs, rng.randrange(0, min(4, len(plugs))))
+            tg = sorted(dict.fromkeys(tg), key=lambda q: -depth[q])          # every descendant before its ancestors
+    elif shape == "chain":
+        p = max(plugs, key=lambda q: (depth[q], rng.random()))
+        tg = [p] + list(reversed(fo.anc(p)))                                 # leaf, parent, ..., root
+        if rng.random() < 0.5:
+            rng.shuffle(tg)
+    elif shape == "cousins":
+        big = [r for r in roots if len(desc[r]) >= 2]
+        if big:
+            r = rng.choice(big)
+            cand = list(desc[r]); rng.shuffle(cand)
+            for q in cand:                                                   # unrelated, different depths when possible
+                if not any(fo.isdesc(q, t) or fo.isdesc(t, q) for t in tg):
+                    tg.append(q)
+            tg = tg[:rng.randrange(2, 6)]
+    elif shape == "multi-root":
+        withd = [r for r in roots if desc[r]]
+        if len(withd) >= 2:
+            rng.shuffle(withd)
+            first = withd[0]
+            tg = [first] if rng.random() < 0.5 else [rng.choice(desc[first])]
+            tg.append(rng.choice(desc[first]))                               # its root is already active now
+            for r in withd[1:]:
+                tg.append(rng.choice(desc[r]))                               # waiter below another, untargeted root
+            if rng.random() < 0.3:
+                tg.append(rng.choice(roots))
+    elif shape == "under-failing":
+        bad = [p for p in plugs if fo.host[p] in fail and desc[p]]
+        if bad:
+            a = rng.choice(bad)
+            tg = rng.sample(desc[a], rng.randrange(1, min(4, len(desc[a])) + 1))
+            if rng.random() < 0.4:
+                tg.insert(rng.randrange(len(tg) + 1), a)
+            tg += rng.sample(plugs, rng.randrange(0, 3))
+    elif shape == "dups":
+        base = rng.sample(plugs, rng.randrange(1, min(3, len(plugs)) + 1))
+        tg = [p for p in base for _ in range(rng.randrange(2, 4))]
+        rng.shuffle(tg)
+    elif shape == "family":
+        big = [p for p in plugs if desc[p]]
+        if big:
+            a = rng.choice(big)
+            tg = desc[a] + [a]
+            if rng.random() < 0.5:
+                rng.shuffle(tg)
+    if not tg:
+        return None, None
+    return tg, shape
+
+
 def setplugs_lines(rng, fo, idx):
     """setplugs commands defining the forest; siblings with consecutive names and indices are grouped"""
     groups = collections.OrderedDict()
@@ -228,7 +297,14 @@ def gen_session(rng, sid, tier):
         if r < 0.80:
             cmd = rng.choice(["stat", "on", "off", "on", "off", "stat"])
             r2 = rng.random()
-            if r2 < 0.08:
+            shape = None
+            if r2 >= 0.40 and rng.random() < 0.5:
+                tg, shape = shaped_targets(rng, fo, set(fail))
+            if shape is not None:
+                if rng.random() < 0.10:
+                    tg.insert(rng.randrange(len(tg) + 1), rng.choice(["nosuch", "Z9", "R99"]))
+                arg = ",".join(tg) if rng.random() < 0.7 else render_targets(rng, tg)
+            elif r2 < 0.08:
                 tg, arg = list(fo.plugs), None
             else:
                 if r2 < 0.30 and n > 1:        # an ancestor together with one of its descendants
@@ -250,7 +326,7 @@ def gen_session(rng, sid, tier):
                     tg.insert(rng.randrange(len(tg) + 1), rng.choice(["nosuch", "Z9", "R99", "h0"]))
                 arg = render_targets(rng, tg)
             exp = expect_rules(cmd, tg, fo, set(fail), st)
-            add(cmd + (" " + arg if arg is not None else ""), cmd=cmd, targets=tg, expect=dict(exp), noarg=arg is None)
+            add(cmd + (" " + arg if arg is not None else ""), cmd=cmd, targets=tg, expect=dict(exp), noarg=arg is None, shape=shape)
             if cmd == "off" and rng.random() < 0.5:
                 # cascade probe: the descendants of a plug that was just switched off are hidden behind it while it is
                 # off; switch the parents on again and look at everybody (a missing cascade shows up as "on" below)
@@ -664,6 +740,10 @@ def account(V, s, real, models):
         if l.get("malformed"):
             kind = "malformed-range"
         V.count("line:" + kind)
+        if l.get("shape"):
+            V.count("targets:" + l["shape"])
+        if kind in ("stat", "on", "off") and l.get("targets") and len(l["targets"]) > 1:
+            V.count("line:several-targets")
         m = models[next(iter(models))][i]
         nontrivial = kind in ("stat", "on", "off") and (real[i]["out"] or "").count("\n") > 0
         V.case((s["hosts_arg"], s["fail_arg"], [x["text"] for x in s["lines"][:i + 1]][-6:], i), nontrivial=nontrivial)
@@ -702,7 +782,10 @@ def run(ctx, V):
     V.rule = ("sessions against the real `redfishpower --test-mode` (ASan/UBSan build of the scratch copy), one line at a time: "
               "(rules) random forests of 1-4 roots, fan-out 0-3, 1-3 levels (10%: 4), <= 14 plugs, one host per plug or several plugs per host, "
               "default / per-plug {{plug}} / mixed paths, 15% failing hosts, 25% with -vv, 6-21 lines: 80% stat/on/off over random target "
-              "subsets (22%: an ancestor with a descendant, 15%: duplicates, 12%: unknown names, ranges P[a-b]), 8% malformed ranges, no-op / "
+              "subsets (22%: an ancestor with a descendant, 15%: duplicates, 12%: unknown names, ranges P[a-b]; 30% of the lines follow the case splits "
+              "of the several-target proofs: descendants before their ancestors, whole root-to-leaf chains, unrelated targets sharing ancestors at "
+              "different depths, one waiter per root after an already active root, targets below a failing host, repeated names, a plug with all "
+              "its descendants), 8% malformed ranges, no-op / "
               "erroneous management lines, subtree moves; (chaos) setplugs/setpath/set*path in any order with bad indices, partial failures, "
               "missing paths, undefined parents (parents have a smaller rank: no cycles); (small) every forest up to N plugs and 3 levels x "
               "every target subset x stat/on/off x all-off/all-on x each single plug on a failing host.  A line counts as non-trivial when it "
